@@ -1,6 +1,7 @@
 package main
 
 import (
+	"os/exec"
 	"encoding/json"
 	"flag"
 	"fmt"
@@ -21,6 +22,40 @@ func main() {
 		cmdVerify(os.Args[2:])
 	case "check":
 		cmdCheck(os.Args[2:])
+	case "replay":
+		// bin/check --replay <replay.json>: re-runs the recorded counterexample against the real
+		// code (go test -overlay), or, where the verifier had no failing input, prints the failed
+		// obligation with the solver's output
+		fs := flag.NewFlagSet("replay", flag.ExitOnError)
+		file := fs.String("file", "", "replay file written by a check")
+		fs.Parse(os.Args[2:])
+		b, err := os.ReadFile(*file)
+		if err != nil {
+			fmt.Fprintln(os.Stderr, err)
+			os.Exit(2)
+		}
+		var rec map[string]any
+		if err := json.Unmarshal(b, &rec); err != nil {
+			fmt.Fprintln(os.Stderr, err)
+			os.Exit(2)
+		}
+		fmt.Printf("obligation: %v\nproperty:   %v\nverdict:    %v\n", rec["obligation"], rec["property"], rec["verdict"])
+		if rp, ok := rec["replay"].(map[string]any); ok && rp["command"] != nil {
+			fmt.Printf("inputs:     %v\nreplaying on the real code: %v\n", rp["inputs"], rp["command"])
+			cmd := exec.Command("sh", "-c", fmt.Sprint(rp["command"]))
+			cmd.Env = append(os.Environ(), "GOFLAGS=-mod=mod", "GOPROXY=off")
+			out, _ := cmd.CombinedOutput()
+			fmt.Print(string(out))
+			fmt.Printf("observed when the replay file was written: %v\n", rp["observed"])
+			os.Exit(1) // the recorded violation
+		}
+		fmt.Println("no-failing-input-found: the verifier has no concrete input for this obligation; solver output and query:")
+		for _, k := range []string{"error", "solvers", "solver", "solver_output", "note", "smt_query_file"} {
+			if v, ok := rec[k]; ok {
+				fmt.Printf("  %s: %v\n", k, v)
+			}
+		}
+		os.Exit(1)
 	case "params":
 		// records the parameter / result names of every function under contract (the positions
 		// the names in the contracts stand for): written to /verif/contract-params.json
